@@ -428,6 +428,9 @@ pub fn family(name: &str, _tier: Tier) -> Vec<Prog> {
             grammar(&menu, 1, 3).into_iter().filter(representative).map(core_alpha).collect()
         }
         "shapes/binds" => bind_shapes(),
+        "shapes/fanout" => fanout_shapes(),
+        "shapes/xp" => xp_shapes(false),
+        "shapes/xp-writes" => xp_shapes(true),
         "c03/nested" => nested_shapes(),
         "c03/inner" => bind_programs().into_iter().flat_map(pin_binds).collect(),
         "c03/stale_rhs" => stale_rhs_programs(),
@@ -578,6 +581,8 @@ pub fn family(name: &str, _tier: Tier) -> Vec<Prog> {
             .map(|(_, p)| p)
             .filter(|p| p.nodes.len() <= 6)
             .chain(cutoff_programs(false).into_iter().filter(|p| p.nodes.iter().filter(|n| n.cut.is_logged()).count() >= 2).step_by(7))
+            // expert nodes: recompute function, edge callback and observability callback are crash points too
+            .chain(xp_shapes(false))
             .map(|p| {
                 with_alpha(p, |a| {
                     a.subscribe = true;
@@ -677,6 +682,10 @@ fn cutoff_programs(full: bool) -> Vec<Prog> {
         (vec![var(0), var(1), n(Recipe::Zip(0, 1)), n(Recipe::MapRef(2)), map(F1::Inc, 3)], vec![0, 3, 4]),
         (vec![var(0), map(F1::Half, 0), map(F1::Half, 0), map2(F2::Mix, 1, 2)], vec![1, 2, 3]),
         (vec![var(0), var(1), bind(0, E(1), F(1)), map(F1::Half, 2)], vec![1, 2, 3]),
+        // two chained map_refs over a nested pair <<v0|v1>|v1>: the inner projection <v0|v1> can carry a coarse
+        // (parity of 7*v0+v1) cutoff that suppresses a change in which the outer projection v0 differs (added
+        // after seed C06-b: a map_ref whose own projection is cut off must still tell the map_refs above it)
+        (vec![var(0), var(1), n(Recipe::Zip(0, 1)), n(Recipe::Zip(2, 1)), n(Recipe::MapRef(3)), n(Recipe::MapRef(4)), map(F1::Inc, 5)], vec![4, 5, 6]),
     ];
     let kinds: Vec<Cut> = if full {
         vec![Cut::Default, Cut::Never, Cut::Always, Cut::FnEq, Cut::BoxEq, Cut::FnPar, Cut::BoxPar]
@@ -696,7 +705,7 @@ fn cutoff_programs(full: bool) -> Vec<Prog> {
                 // MapRef consults its cutoff from child_changed, possibly several times: keep it unlogged
                 if matches!(nodes[*t as usize].recipe, Recipe::MapRef(_)) && cut.is_logged() {
                     all_default = false;
-                    nodes[*t as usize].cut = Cut::Never;
+                    nodes[*t as usize].cut = if matches!(cut, Cut::FnPar | Cut::BoxPar) { Cut::QuietPar } else { Cut::Never };
                     continue;
                 }
                 if cut != Cut::Default {
@@ -883,4 +892,72 @@ pub fn nested_shapes() -> Vec<Prog> {
         // inner bind whose input is a map over the outer bind's input
         mk(vec![var(0), var(2), map(F1::Half, 0), bind(0, nb(2, F(1), F(1)), nb(2, F(1), E(1)))], 3),
     ]
+}
+
+/// One node with three or more dependants in which it sits at *different* input positions (first input of one,
+/// second of another, both inputs of a third, a fold input twice, a bind alternative), three observers that can be
+/// dropped in any order: every permutation of the swap-removes on the shared node's parent list, with the index
+/// tables on both ends, is reached (added after seed C04-b: the slot table of the parent moved by a swap-remove).
+pub fn fanout_shapes() -> Vec<Prog> {
+    use Rhs::*;
+    let k = |c: i32| n(Recipe::Const(c));
+    let shapes: Vec<(Vec<NodeSpec>, Vec<u8>)> = vec![
+        // c is input 0 of p0, input 1 of p1, input 0 of p2
+        (vec![var(0), k(1), k(2), map(F1::Inc, 0), map2(F2::Mix, 1, 0), map2(F2::Mix, 0, 2)], vec![3, 4, 5]),
+        // c twice in one parent, once in two others at different positions
+        (vec![var(0), k(1), map2(F2::Mix, 0, 0), map2(F2::Mix, 1, 0), map(F1::Inc, 0)], vec![2, 3, 4]),
+        // fold with c at positions 0 and 2, map2 with c second, map
+        (vec![var(0), k(1), n(Recipe::Fold(vec![0, 1, 0])), map2(F2::Mix, 1, 0), map(F1::Par, 0)], vec![2, 3, 4]),
+        // a bind that switches between c itself and a map2 over c: c gains / loses the bind main as a parent
+        (vec![var(0), var(1), map2(F2::Mix, 1, 0), bind(1, E(0), E(2)), map2(F2::Mix, 0, 1), map(F1::Inc, 0)], vec![3, 4, 5]),
+        // second level: the shared node is itself derived (so it is relinked when it becomes needed again)
+        (vec![var(0), k(1), map(F1::Inc, 0), map(F1::Inc, 2), map2(F2::Mix, 1, 2), map2(F2::Mix, 2, 1), map2(F2::Mix, 2, 2)], vec![3, 4, 5, 6]),
+    ];
+    shapes
+        .into_iter()
+        .map(|(nodes, observable)| {
+            let mut p = Prog::new(nodes);
+            p.alpha.observable = observable;
+            p.start_observed = p.alpha.observable.iter().take(3).cloned().collect();
+            p.alpha.max_observers = 3;
+            p.alpha.values = vec![0, 1];
+            p.alpha.disallow = false;
+            p
+        })
+        .collect()
+}
+
+/// Expert nodes (`Recipe::Xp`) among ordinary ones: their recompute function, on-change edge callback and
+/// observability callback are user closures that run inside stabilise (the observability callback already while
+/// observers are being linked / unlinked at its start, or in the middle of propagation when a bind switches to or
+/// away from the expert node). Added after seeds C07-b / C13-b. With `writes`, the observability callbacks write a
+/// variable; closures read every observer (C07).
+pub fn xp_shapes(writes: bool) -> Vec<Prog> {
+    use Rhs::*;
+    let xp = |a: u8| n(Recipe::Xp(a));
+    let shapes: Vec<(Vec<NodeSpec>, Vec<u8>, u8)> = vec![
+        // expert node in the middle of a chain
+        (vec![var(0), var(1), xp(0), map2(F2::Mix, 2, 1)], vec![2, 3], 1),
+        // a bind that switches between an expert node and a plain one: observability flips mid-stabilise
+        (vec![var(0), var(1), xp(1), map(F1::Inc, 1), bind(0, E(2), E(3))], vec![4, 2], 1),
+        // expert node over a bind output, with a sibling
+        (vec![var(0), var(1), bind(0, E(1), F(1)), xp(2), map(F1::Inc, 0)], vec![3, 4], 0),
+        // two expert nodes in a row
+        (vec![var(0), xp(0), xp(1), map(F1::Par, 0)], vec![1, 2, 3], 0),
+    ];
+    shapes
+        .into_iter()
+        .map(|(nodes, observable, target)| {
+            let mut p = Prog::new(nodes);
+            p.alpha.observable = observable;
+            p.alpha.max_observers = 2;
+            p.alpha.values = vec![0, 1];
+            p.alpha.disallow = false;
+            p.alpha.closures_read_observers = true;
+            if writes {
+                p.alpha.obs_cb_sets_var = Some(target);
+            }
+            p
+        })
+        .collect()
 }
